@@ -33,6 +33,7 @@ impl Prop for P {
             rule: "streams (valid from 4 sources; directive streams, mutants, random bytes) x (slice length, start position, per-call budget) x flat/ring (2^0..2^16); the output slice is pre-filled with a keyed pseudo-random pattern and compared byte-for-byte outside [out_pos, out_pos+written) after every call; HasMoreOutput only with the granted region full, NeedsMoreInput only with all offered input consumed, driver loop bounded; produced bytes == plaintext slice for valid streams. Vector functions with limit in {0, n-1, n, n+1, 2n, huge, random}. Non-trivial = a call with budget smaller than what was still to come that stopped inside a match copy (state WriteLenBytesToEnd); distinct by case fingerprint",
             assumptions: &["reference inflater supplies the plaintext for valid streams (self-checked)"],
             dbg: true,
+            simd: false,
             exhaustive: None,
         }
     }
